@@ -747,7 +747,9 @@ def gen_level(rng, T, app, opts):
     lv.ports = list(leaves)
     # rSelf(..., rEnabledBy(x)): the table's own switch
     if T > 0 and rng.random() < opts.get("p_self", 0.0):
-        togg = [p for p in leaves if p.kind == "t" and p.fid != lv.enabler]
+        # (a switch whose own default depended on a selector it disables would make the application
+        #  ill formed: the selector is not saved while the switch is off - wf_app, notes/C12.md stage 4)
+        togg = [p for p in leaves if p.kind == "t" and p.fid != lv.enabler and p.depends is None]
         if togg:
             lv.self_enabled_by = rng.choice(togg).name
     # children
@@ -766,9 +768,16 @@ def gen_level(rng, T, app, opts):
             elif kf == "sub" and rng.random() < opts.get("p_inner", 0.0):
                 # the switch lives inside the sub-tree: "enabled by" = "<child>/<toggle>"
                 nxt = app.levels[T + 1]
-                togg = [p for p in nxt.ports if isinstance(p, Leaf) and p.kind == "t" and p.fid != nxt.enabler]
+                togg = [p for p in nxt.ports if isinstance(p, Leaf) and p.kind == "t" and p.fid != nxt.enabler
+                        and p.depends is None]
                 if togg:
-                    c.enabled_by = c.name + "/" + rng.choice(togg).name
+                    tg = rng.choice(togg)
+                    c.enabled_by = c.name + "/" + tg.name
+                    # every port of the sub-tree waits for this switch (its parent's "enabled by"), so the
+                    # switch must not itself wait for a port of the sub-tree: the metadata would be cyclic
+                    # (D31, notes/C12.md stage 4) unless opts["cyclic"] asks for exactly that
+                    if not opts.get("cyclic"):
+                        tg.rdepends, tg.eb_leaf = [], None
             elif kf in ("sub", "arr") and rng.random() < opts.get("p_soft", 0.0):
                 togg = [p for p in leaves if p.kind == "t" and p.fid != lv.enabler]
                 if togg:
